@@ -294,13 +294,22 @@ fn parse_oracle(topic: &[u8], payload: &[u8], ev: &Result<Event, String>, out: &
     let ev = match ev {
         Err(m) => {
             out.fail("C13:no-panic", &feature_of_topic(topic), format!("{} panicked: {}", op, m));
+            out.fail("C19:state-json-total", &format!("receive-path-panic:{}", feature_of_topic(topic)), format!("{} panicked: {}", op, m));
             return;
         }
         Ok(e) => e,
     };
     let shape = shape_of(topic);
     let pb_ok = decodes(payload);
-    let cert_ok = StateBirthDeathCertificate::try_from(payload).is_ok();
+    let cert_ok = match catch(AssertUnwindSafe(|| StateBirthDeathCertificate::try_from(payload).is_ok())) {
+        Ok(b) => b,
+        Err(m) => {
+            // the certificate reader itself panics on these bytes (whatever the topic was)
+            out.fail("C13:no-panic", "certificate-decoder", format!("StateBirthDeathCertificate::try_from panicked on the payload of {}: {}", op, m));
+            out.fail("C19:state-json-total", "certificate-decoder-panic", format!("StateBirthDeathCertificate::try_from panicked on the payload of {}: {}", op, m));
+            return;
+        }
+    };
     match ev {
         Event::InvalidPublish { topic: t, payload: p, .. } => {
             out.count("event:invalid");
@@ -494,6 +503,7 @@ pub fn exec(op: &str, out: &mut Out) -> String {
             match catch(AssertUnwindSafe(|| StateBirthDeathCertificate::try_from(b.as_slice()))) {
                 Err(m) => {
                     out.fail("C13:no-panic", "certificate-decoder", format!("{} panicked: {}", op, m));
+                    out.fail("C19:state-json-total", "certificate-decoder-panic", format!("{} panicked: {}", op, m));
                     "panic".into()
                 }
                 Ok(Ok(c)) => format!("ok {} {}", c.online as u8, c.timestamp),
@@ -1361,6 +1371,39 @@ pub fn run(args: &Args, out: &mut Out) -> &'static str {
             }
         }
         batch(out, &ops, "cert:single-edits");
+        // long undecodable certificates: every length 0..=300 of ASCII filler followed by a multi-byte
+        // character / an invalid byte / more filler, bare and inside JSON shapes the reader gets far into -
+        // the error branch must stay an error whatever it does with the rejected bytes
+        let mut ops = vec![];
+        let state_topic = hex(StateTopic::new_host("h").topic.as_bytes());
+        let tails: [&[u8]; 6] = ["\u{e9}".as_bytes(), "\u{20ac}".as_bytes(), "\u{1f600}".as_bytes(), b"\xff", b"\xc3", b"zz"];
+        for k in 0..=300usize {
+            for (ti, tail) in tails.iter().enumerate() {
+                let filler = vec![b'a' + (k % 7) as u8; k];
+                let mut bare = filler.clone();
+                bare.extend_from_slice(tail);
+                bare.extend_from_slice(b"tail");
+                let mut shapes: Vec<Vec<u8>> = vec![bare];
+                if (k + ti) % 3 == 0 {
+                    let mut v = b"{\"online\":true,\"timestamp\":1,\"x\":\"".to_vec();
+                    v.extend_from_slice(&filler);
+                    v.extend_from_slice(tail);
+                    v.extend_from_slice(b"\"");
+                    shapes.push(v.clone());
+                    v.extend_from_slice(b"}");
+                    shapes.push(v);
+                    let mut v = b"{\"online\":1".to_vec();
+                    v.extend_from_slice(&filler);
+                    v.extend_from_slice(tail);
+                    shapes.push(v);
+                }
+                for b in shapes {
+                    ops.push(format!("topic cert {}", hex(&b)));
+                    ops.push(format!("topic parse {} {} {}", state_topic, hex(&b), decodes(&b) as u8));
+                }
+            }
+        }
+        batch(out, &ops, "cert:long-undecodable");
         out.exhaustive.push("certificate reader: every single insertion / replacement (24-byte alphabet), deletion and truncation of the two canonical certificates".into());
         let mut ops = vec![];
         for _ in 0..(if th { 150000 } else { 25000 }) {
